@@ -9,29 +9,35 @@ import numpy as np
 from . import c07_cases as G
 
 PROPS_MODULE = "NessaiVerif.Props.C07"
+N_THEOREMS = 42
 MANIFEST = dict(
-    text="Lean theorems (38, any linearly ordered field, hence Q and R) about an executable model of the affine family: "
-         "ScaleAndShift/Rescale, RescaleToBounds (rescale_bounds, offset, update_bounds, pre/post hooks as parameters, boundary "
-         "inversion lower/upper/both/none x split/duplicate with the sign bit and the edge decision as inputs), "
-         "rescale_zero_to_one / minus_one_to_one, determine_rescaled_bounds, Null, CombinedReparameterisation and "
-         "FlowProposal.rescale/inverse_rescale: round trip and J_fwd*J_inv = 1 under the exact regularity guard, on the whole "
-         "prior box (bounds included) for the state the constructor builds and on the data range of the reflecting side after "
-         "update(); J constant and equal to the absolute slope; non-sampling fields untouched; one `Lawful` notion closed under "
-         "composition of any list of objects in either order; stored prime-prior bounds = image of the prior interval (plain, "
-         "inversion off/lower/upper), with machine-checked counter-examples where the code breaks it (edge 'both', points outside "
-         "the data range after update, reversed rescale bounds). Over R (Mathlib): logit/sigmoid, log/exp (round trip, "
-         "log-Jacobians negatives, HasDerivAt = exp(log_j)), chain rule for RescaleToBounds with differentiable hooks, Angle / "
-         "ToCartesian / AnglePair (round trip via Complex.arg incl. the % 2pi branch, Jacobian determinants s*r, r^2 cos, "
-         "r^2 sin). Tie, every run: the real classes from get_reparameterisation / get_gw_reparameterisation for every "
-         "registered name of the affine family x option values, single and combined (both orders), before/after update(), on "
-         "dyadic points (bounds, one ulp inside, interior, just outside for the support check) are compared row by row with the "
-         "exact Rat result of the Lean driver (values within 16 ulp of the conditioned magnitude, log-Jacobian vs log of the "
-         "exact factor 1e-12, internal bounds/offset/prime-prior bounds); plus determine_rescaled_bounds and the four rescaling "
-         "utilities directly. The transcendental family and the FlowProposal layer are checked by a numeric oracle only.",
-    note="Partial: transcendental maps are proved for the real functions, their tie to the NumPy code is the oracle (round trip "
-         "1e-9, log_j_fwd = -log_j_inv, log_j minus 5-point finite-difference log|det| constant 1e-5, prime prior = prior/J up "
-         "to a constant). Not covered: prime priors of the polar classes and GW converters in Lean, the co-moving-volume lookup "
-         "table, detect_edge's histogram decision (input), float rounding. np.random.choice and chi.rvs are scripted.",
+    text="PARTIAL: machine-checked for the affine family, oracle-only for the rest. "
+         "Lean theorems (%d, any linearly ordered field, hence Q and R) about an executable model of ScaleAndShift/Rescale, "
+         "RescaleToBounds (rescale_bounds, offset, update_bounds, pre/post hooks as parameters, boundary inversion "
+         "lower/upper/both/none x split/duplicate with sign bit and edge decision as inputs), rescale_zero_to_one / "
+         "minus_one_to_one, determine_rescaled_bounds, Null, CombinedReparameterisation and FlowProposal.rescale/inverse_rescale: "
+         "round trip, J_fwd*J_inv = 1 AND both factors > 0 (so the two log-Jacobians are finite negatives) under the exact guard "
+         "b0 < b1 etc., on the whole prior box (bounds included) for the constructor's state and on the data range of the "
+         "reflecting side after update(); J constant = absolute slope; non-sampling fields untouched; one `Lawful` notion closed "
+         "under composition of any list in either order; stored prime-prior bounds = image of the prior interval (plain, "
+         "inversion off/lower/upper) and prime prior = prior/J up to a constant for a uniform prior; machine-checked "
+         "counter-examples where the code breaks the property (edge 'both', points outside the data range after update, "
+         "reversed rescale bounds, decreasing pre-rescaling => negative factor / NaN log_j). Over R (Mathlib, statements about "
+         "the model functions): logit/sigmoid, log/exp (round trip, log-Jacobians negatives, HasDerivAt = exp(log_j)); the "
+         "registered logit / log-rescale objects end to end on the open interval / (p0, p1]; chain rule for RescaleToBounds with "
+         "differentiable hooks; Angle / ToCartesian / AnglePair round trip (Complex.arg incl. the %% 2pi branch) and "
+         "log|det J| = log_j + const (const = log|scale|, log pi, 0). Tie, every run: the real classes from "
+         "get_reparameterisation / get_gw_reparameterisation for every registered name of the affine family x option values, "
+         "single and combined (both orders), before/after update(), on dyadic points (bounds, one ulp inside, interior, just "
+         "outside) compared row by row with the exact Rat result of the Lean driver (values within 16 ulp of the conditioned "
+         "magnitude, log-Jacobian vs log of the exact factor 1e-12, internal bounds/offset/prime-prior bounds); plus "
+         "determine_rescaled_bounds and the four rescaling utilities directly. ORACLE ONLY (numeric, no tie to a Lean model): "
+         "logit, log-rescale, pre_rescaling log/exp/logit, Angle (angle, angle-pi, angle-2pi, periodic), ToCartesian, AnglePair "
+         "(angle-pair, sky-ra-dec, sky-az-zen), distance with power-law prior, delta_phase, and the FlowProposal layer." % N_THEOREMS,
+    note="Oracle = round trip 1e-9, non-sampling fields bitwise, log_j_fwd = -log_j_inv, log_j minus 5-point finite-difference "
+         "log|det| constant 1e-5, prime prior = prior/J up to a constant with the same support. NOT SHOWN in Lean: prime priors of "
+         "the polar classes and of the GW converters, the GW converters themselves (co-moving-volume lookup table not covered at "
+         "all), DeltaPhase, detect_edge's histogram decision (an input), float rounding. np.random.choice and chi.rvs are scripted.",
     technique="Lean 4 proof over ordered fields / R + exact-rational differential correspondence + numeric oracle",
     ref="5/C07")
 
